@@ -32,6 +32,45 @@ type walker struct {
 	elemGlobalGet bool // some element item expression is a global.get
 	types  []typeSite // every position that holds a value/reference type or a block type (retype pass)
 	nTypes int        // entries of the type section
+	secs   []*secInfo // every section with the extents of its vector entries (drop-dependency pass)
+}
+
+// secInfo locates one section and, for the vector sections whose entries other parts of the module
+// depend on (imports, tables, memories, globals, exports, element and data segments), each entry.
+type secInfo struct {
+	ID                byte
+	Start, CS, End    int // id byte, content start, end
+	CountOff, CountLen int
+	Count             uint64
+	starts            []int // start offset of each entry (entries are contiguous up to End)
+}
+
+func (si *secInfo) entry(k int) (from, to int) {
+	from = si.starts[k]
+	to = si.End
+	if k+1 < len(si.starts) {
+		to = si.starts[k+1]
+	}
+	return
+}
+
+// dropSection returns b without the section.
+func dropSection(b []byte, si *secInfo) []byte {
+	return append(append([]byte{}, b[:si.Start]...), b[si.End:]...)
+}
+
+// dropEntry returns b with entry k of the vector section removed, the count decremented and the section
+// size adjusted; everything else (in particular the code section) is left untouched.
+func dropEntry(b []byte, si *secInfo, k int) []byte {
+	from, to := si.entry(k)
+	content := append([]byte{}, uleb(si.Count-1)...)
+	content = append(content, b[si.CountOff+si.CountLen:from]...)
+	content = append(content, b[to:si.End]...)
+	out := append([]byte{}, b[:si.Start]...)
+	out = append(out, si.ID)
+	out = append(out, uleb(uint64(len(content)))...)
+	out = append(out, content...)
+	return append(out, b[si.End:]...)
 }
 
 // typeSite is a position of the binary that names a type: a value-type byte (function type entry, local
@@ -165,9 +204,12 @@ func fieldMap(b []byte) []field {
 func walkModule(b []byte) *walker {
 	w := &walker{b: b, p: 8}
 	for w.p < len(b) {
+		secStart := w.p
 		id := w.byte_()
 		_, n := w.size("sec.size")
 		end := w.p + n
+		cur := &secInfo{ID: id, Start: secStart, CS: w.p, End: end}
+		w.secs = append(w.secs, cur)
 		switch id {
 		case 0:
 			nameStart := w.p
@@ -226,7 +268,9 @@ func walkModule(b []byte) *walker {
 			}
 		case 2:
 			c := w.uleb("import.count")
+			cur.Count, cur.CountOff, cur.CountLen = c, w.fields[len(w.fields)-1].Off, w.fields[len(w.fields)-1].Len
 			for i := uint64(0); i < c; i++ {
+				cur.starts = append(cur.starts, w.p)
 				w.name("import.module.len")
 				w.name("import.name.len")
 				switch k := w.byte_(); k {
@@ -251,25 +295,33 @@ func walkModule(b []byte) *walker {
 			}
 		case 4:
 			c := w.uleb("table.count")
+			cur.Count, cur.CountOff, cur.CountLen = c, w.fields[len(w.fields)-1].Off, w.fields[len(w.fields)-1].Len
 			for i := uint64(0); i < c; i++ {
+				cur.starts = append(cur.starts, w.p)
 				w.typeByte("table.type")
 				w.limits("table")
 			}
 		case 5:
 			c := w.uleb("mem.count")
+			cur.Count, cur.CountOff, cur.CountLen = c, w.fields[len(w.fields)-1].Off, w.fields[len(w.fields)-1].Len
 			for i := uint64(0); i < c; i++ {
+				cur.starts = append(cur.starts, w.p)
 				w.limits("mem")
 			}
 		case 6:
 			c := w.uleb("global.count")
+			cur.Count, cur.CountOff, cur.CountLen = c, w.fields[len(w.fields)-1].Off, w.fields[len(w.fields)-1].Len
 			for i := uint64(0); i < c; i++ {
+				cur.starts = append(cur.starts, w.p)
 				w.typeByte("global.type")
 				w.byte_()
 				w.constExpr()
 			}
 		case 7:
 			c := w.uleb("export.count")
+			cur.Count, cur.CountOff, cur.CountLen = c, w.fields[len(w.fields)-1].Off, w.fields[len(w.fields)-1].Len
 			for i := uint64(0); i < c; i++ {
+				cur.starts = append(cur.starts, w.p)
 				w.name("export.name.len")
 				w.byte_()
 				w.uleb("export.idx")
@@ -278,7 +330,9 @@ func walkModule(b []byte) *walker {
 			w.uleb("start.funcidx")
 		case 9:
 			c := w.uleb("elem.count")
+			cur.Count, cur.CountOff, cur.CountLen = c, w.fields[len(w.fields)-1].Off, w.fields[len(w.fields)-1].Len
 			for i := uint64(0); i < c; i++ {
+				cur.starts = append(cur.starts, w.p)
 				flag := w.uleb("elem.flag")
 				if flag&3 == 2 {
 					w.uleb("elem.tableidx")
@@ -321,7 +375,9 @@ func walkModule(b []byte) *walker {
 			}
 		case 11:
 			c := w.uleb("data.count")
+			cur.Count, cur.CountOff, cur.CountLen = c, w.fields[len(w.fields)-1].Off, w.fields[len(w.fields)-1].Len
 			for i := uint64(0); i < c; i++ {
+				cur.starts = append(cur.starts, w.p)
 				flag := w.uleb("data.flag")
 				if flag == 2 {
 					w.uleb("data.memidx")
